@@ -1,7 +1,7 @@
 (* C01 — property theorems only: what "converged" means and why preconditioner / initial guess
    cannot change the answer.  (Convergence of the iteration itself is the property's premise.) *)
 From Coq Require Import List Arith Bool Ring.
-From PySDC Require Import Model.Sweep Model.Transfer Model.MultiLevel Model.Block Proofs.SweepProofs Proofs.MultiLevelProofs Proofs.MultiLevelExample Proofs.BlockProofs Proofs.BlockExample.
+From PySDC Require Import Model.Sweep Model.Transfer Model.MultiLevel Model.Block Proofs.SweepProofs Proofs.MultiLevelProofs Proofs.MultiLevelExample Proofs.BlockProofs Proofs.BlockCorollary Proofs.BlockExample.
 Import ListNotations.
 
 Section C01.
@@ -136,11 +136,20 @@ Section C01_block.
     same (lev 0) (su (B p 0), sf (B p 0)) (su (R0 p), sf (R0 p)).
   Proof. exact (block_fixed_point_any_schedule kO kI kadd kmul ksub kopp keqb Rth keqb_true imex lev xf tstart P L Hlev Hxf R0 H0 Hchain). Qed.
 
-  (* the controller's own schedule is one of them *)
+  (* ... and ONE ITERATION OF THE CONTROLLER (any number of steps and levels, any sweep counts, Jacobi or Gauss-Seidel coupling):
+     its schedule stays inside the hierarchy and keeps every entry valid, so every step comes back unchanged *)
+  Theorem C01_controller_iteration_fixed_point : 0 < L -> forall nsw jacobi,
+    let B := run_ops kO kadd kmul ksub keqb imex lev xf tstart (pfasst_iteration P L nsw jacobi) (init_block kO P R0) in
+    forall p, p < P ->
+      svalid (B p 0) = true /\
+      same (lev 0) (su (B p 0), sf (B p 0)) (su (R0 p), sf (R0 p)).
+  Proof. exact (fun HL => controller_iteration_fixed_point kO kI kadd kmul ksub kopp keqb Rth keqb_true imex lev xf tstart P L HL Hlev Hxf R0 H0 Hchain). Qed.
+
   Theorem C01_controller_schedule_in_bounds : forall nsw jacobi, Forall (op_in_bounds L) (pfasst_iteration P L nsw jacobi).
   Proof. exact (pfasst_iteration_in_bounds L P). Qed.
 End C01_block.
 Print Assumptions C01_block_fixed_point_any_schedule.
+Print Assumptions C01_controller_iteration_fixed_point.
 Print Assumptions C01_controller_schedule_in_bounds.
 
 (* Non-vacuity: a concrete block (2 steps, 2 levels, Qc) meets every hypothesis, all entries stay valid under the controller's
